@@ -22,6 +22,16 @@ pub mod atomic {
             ensures r == old(self).val(), final(self).val() == ((old(self).val() as int - v as int) % 0x1_0000_0000_0000_0000) as u64 { unimplemented!() }
         #[verifier::external_body]
         pub fn load(&self, o: Ordering) -> (r: u64) ensures r == self.val() { unimplemented!() }
+        #[verifier::external_body]
+        pub fn store(&mut self, v: u64, o: Ordering) ensures final(self).val() == v { unimplemented!() }
+        #[verifier::external_body]
+        pub fn swap(&mut self, v: u64, o: Ordering) -> (r: u64) ensures r == old(self).val(), final(self).val() == v { unimplemented!() }
+        #[verifier::external_body]
+        pub fn fetch_max(&mut self, v: u64, o: Ordering) -> (r: u64)
+            ensures r == old(self).val(), final(self).val() == (if v > old(self).val() { v } else { old(self).val() }) { unimplemented!() }
+        #[verifier::external_body]
+        pub fn fetch_min(&mut self, v: u64, o: Ordering) -> (r: u64)
+            ensures r == old(self).val(), final(self).val() == (if v < old(self).val() { v } else { old(self).val() }) { unimplemented!() }
     }
 }
 pub use atomic::{AtomicU64, Ordering};
